@@ -155,6 +155,6 @@ def subs(tier):
     full = st.one_of(gen.program(min_n=2, max_n=6, depth=2, max_ops=8),
                      gen.addition_tree(max_n=5, max_adds=3))
     return [
-        Sub("rewrites", run_rewrite, strategy=cases(full), examples=150 if q else 3000),
-        Sub("swap-heavy", run_rewrite, strategy=cases(gen.swap_heavy_program()), examples=150 if q else 3000),
+        Sub("rewrites", run_rewrite, strategy=cases(full), examples=150 if q else 8000),
+        Sub("swap-heavy", run_rewrite, strategy=cases(gen.swap_heavy_program()), examples=150 if q else 8000),
     ]
